@@ -34,6 +34,8 @@ TuneOk(c, o) ==
     /\ o.best_index \in BestSet(c)                                   \* best in the declared direction
     /\ o.best_score = Score(c, o.best_index)                         \* best_* describe the same row
     /\ o.best_params = o.best_index
+    /\ o.template                                                    \* the forecaster handed to the tuner is left as it was
+    /\ o.again                                                       \* fitting the same tuner again reports the same search
     /\ IF c.refit
        THEN /\ o.refit_window = <<0, c.n - 1>>                       \* best forecaster fitted on the whole series
             /\ o.delegates /\ o.cutoff = c.n - 1                     \* predict / update / cutoff as the best forecaster
@@ -45,6 +47,8 @@ TClause(c, o) ==
     ELSE IF \E i \in DOMAIN c.tables : o.windows[i] # Windows(c) THEN "SameSplitsForAll"
     ELSE IF o.best_index \notin BestSet(c) THEN "BestIsArgBestInDeclaredDirection"
     ELSE IF o.best_score # Score(c, o.best_index) \/ o.best_params # o.best_index THEN "BestTripleConsistent"
+    ELSE IF ~o.template THEN "TemplateForecasterUntouched"
+    ELSE IF ~o.again THEN "SecondFitReportsSameSearch"
     ELSE IF c.refit THEN (IF o.refit_window # <<0, c.n - 1>> THEN "RefitOnWholeSeries" ELSE "DelegatesToBest")
     ELSE "NoRefitRaisesNotFitted"
 =============================================================================
